@@ -265,6 +265,12 @@ def fam_closed_form(ctx, rng):
     A, B, C = (float(rng.choice([-1, 1]) * 10 ** rng.uniform(-2, 2)) for _ in range(3))
     if rng.random() < 0.15:
         A = 0.0
+    elif rng.random() < 0.3:
+        # a nearly dead horizontal channel (or one left in other units): many orders of magnitude below the other one
+        if rng.random() < 0.5:
+            A *= float(10 ** rng.uniform(-13, -8))
+        else:
+            B *= float(10 ** rng.uniform(-13, -8))
     cfg = gen_cfg(rng, dt, L)
     # closed form needs only linearity of the smoother: restrict fcs to where windows are surely non-empty
     n_fft = max(gen.nextpow2(L), cfg["user_n"] or 0)
